@@ -301,6 +301,11 @@ class Context:
     def gt(self, a, b):
         return self._rel(b, a, '<')
 
+    def close(self, a, b, tol):
+        """|a - b| <= tol (for values that pass through concrete float steps)."""
+        d = Sym.lift(a) - Sym.lift(b)
+        return mkbool(And.make([sign_formula(d - tol, '<='), sign_formula(d + tol, '>=')]))
+
     def all_eq(self, A, B):
         import numpy as np
         A = np.asarray(A, dtype=object)
@@ -850,6 +855,9 @@ class ConcreteContext:
         if a != a or b != b:
             return False
         return abs(a - b) <= self._tol(a, b)
+
+    def close(self, a, b, tol):
+        return abs(float(a) - float(b)) <= max(tol, self._tol(float(a), float(b)))
 
     def le(self, a, b):
         a = float(a)
